@@ -12,22 +12,26 @@ CHECKS = {
         text=('Every predicate of every generated core-fragment program is compiled by the real pipeline (same calls as '
               '`logica.py run`), executed on SQLite and its rows + column names compared as a multiset with an independent '
               'reference evaluator written from the documentation; reach counters (injections, UNION ALL, un-memoized compiles) '
-              'are mandatory. Held on the programs generated, not a proof.'),
+              'are mandatory. Adversarial classes: duplicate rows, computed and repeated elements of `in`, the same functional call repeated over '
+              'multi-valued functions, unary minus, calls inside list / record literals, named columns in different orders. Held on the programs '
+              'generated, not a proof.'),
         note='trusted: reference evaluator (DESIGN 4.21), SQLite 3.40; fragment excludes / %, floats, composite equality'),
     'C02': dict(
         category='exploration', design_ref='DESIGN.md 4/C02',
-        technique='runtime monitor: generated aggregation/negation programs on the real pipeline + SQLite vs an independent reference evaluator; deviation switches classify recorded findings',
+        technique='runtime monitor: generated aggregation/negation programs on the real pipeline + SQLite vs an independent reference evaluator; deviation switches classify recorded findings; icontract invariants at a hook on the ArgMin/ArgMax UDF objects',
         text=('Every predicate of generated programs with predicate-level aggregation, correlated and nested aggregating expressions '
               '(clashing local names), negation and implication is executed on SQLite through the real pipeline and compared with the '
               'reference multiset (List as multiset, Set as set, ties as one-of). A mismatch is reported unless it is fully explained by '
-              'a deviation switch that corresponds to an open entry of known_findings.json.'),
+              'a deviation switch that corresponds to an open entry of known_findings.json. K-aggregates (ArgMinK / ArgMaxK) run under '
+              'post-conditions on every UDF step (at most K kept, heap root is the worst kept value, kept values are the K best fed so far).'),
         note='trusted: reference evaluator (DESIGN 4.21); zero-key aggregation over no solution is not judged'),
     'C03': dict(
         category='exploration', design_ref='DESIGN.md 4/C03',
         technique='runtime monitor: recursive programs run through the real pipeline (script path and concertina workflow path) on SQLite vs an iterated reference operator; the unfolding style is observed through a wrapper on RecursiveAnalysis',
         text=('Recursive programs from 9 templates at many depths are executed for real (iterative plans through ExecuteLogicaProgram) and compared '
               'with T^(depth+1)(empty) computed by iterating the reference evaluator: exactly for self-recursive, flat and iterative unfolding, '
-              'as lower/upper bounds (T^(depth+1) and the least fixpoint) for vertical unfolding of a larger cover.'),
+              'as lower/upper bounds (T^(depth+1) and the least fixpoint) for vertical unfolding of a larger cover. Set-valued counters that never '
+              'converge make every application visible at depths > 20.'),
         note='trusted: reference iteration (vf/ref/recursion.py); heavy shapes limited in depth for non-iterative unfolding (exponential SQL size)'),
     'C04': dict(
         category='exploration', design_ref='DESIGN.md 4/C04',
@@ -35,11 +39,13 @@ CHECKS = {
         text=('Generated layered programs with 1-4 functor applications (several arguments, swaps, functor of functor result, equal and '
               'different bindings, constant arguments, arguments reached through intermediates and diamonds); every made predicate and every '
               'original predicate is executed and compared with the substitution semantics; made predicates are additionally compared with '
-              'an explicitly cloned program. The functor cache is exercised (CallFunctor counter, equal bindings).'),
+              'an explicitly cloned program. The functor cache is exercised (CallFunctor counter, equal bindings); forced chains F -> Mid -> Inner -> A '
+              'are applied twice with different bindings, functors that reach a made predicate through an ordinary one are applied themselves, and '
+              'made names sort before / after / between the other names.'),
         note='trusted: reference evaluator; composition of substitutions as in DESIGN 4.21 rule 12'),
     'C06': dict(
         category='exploration', design_ref='DESIGN.md 4/C06',
-        technique='runtime differential monitor: every generated / corpus / corrupted input parsed by the Python parser and by the C++ parser built from the current source (ASan+UBSan build in the thorough tier); rule trees compared structurally',
+        technique='runtime differential monitor: every generated / corpus / corrupted input parsed by the Python parser and by the C++ parser built from the current source (ASan+UBSan build in the thorough tier); rule trees compared structurally; libFuzzer (ASan+UBSan) on the C ABI in the thorough tier (crash / sanitizer reports only)',
         text=('Grammar-directed programs covering the productions of docs/syntax.md, programs of the semantic generator, the repository\'s .l corpus, '
               'layout variants and single-token corruptions are parsed under LOGICA_PARSER=PY and =CPP through parse.ParseFile; verdicts '
               '(accept / ParsingException / internal error) and rule trees must agree. A native crash or sanitizer report aborts the shard and is '
@@ -47,16 +53,17 @@ CHECKS = {
         note='trusted: the grammar generator derives only documented forms; number/escape forms outside docs/syntax.md are not generated'),
     'C07': dict(
         category='exploration', design_ref='DESIGN.md 4/C07',
-        technique='runtime monitor: metamorphic comparison of a program and its permuted / renamed variants on the real pipeline + SQLite, admissible differences taken from the reference evaluator',
+        technique='runtime monitor: metamorphic comparison of a program and its permuted / renamed variants on the real pipeline + SQLite, admissible differences taken from the reference evaluator; icontract invariants at a hook on the ArgMin/ArgMax UDF objects under every arrival order',
         text=('Generated programs and their variants (permuted rules/facts/conjuncts/disjuncts, variables renamed from colliding pools, '
               'predicates renamed) are both executed on SQLite through the real pipeline; rows must be equal as multisets keyed by column '
-              'name, only List element order and tie choices being admitted. Fact permutation permutes the arrival order at aggregate UDFs.'),
+              'name, only List element order and tie choices being admitted. Fact permutation permutes the arrival order at aggregate UDFs, whose '
+              'bounded-heap invariants are checked after every step.'),
         note='trusted: the reference evaluator only for which columns are List-like / tied'),
     'C08': dict(
         category='exploration', design_ref='DESIGN.md 4/C08',
         technique='runtime monitor: metamorphic comparison across all assignments of plan annotations on the real pipeline + SQLite; sqlite authorizer probe shows the plan really changed',
         text=('For generated programs every assignment of @NoInject/@With/@NoWith/@Ground to up to 2 (quick) / 3 (thorough) intermediate '
-              'predicates is compiled and executed on SQLite; rows of the annotated predicates and of their readers must equal the '
+              'predicates (single-rule predicates and body-less aggregating predicates first) is compiled and executed on SQLite; rows of the annotated predicates and of their readers must equal the '
               'unannotated run (itself compared with the reference). The SQLite authorizer probe must see grounded tables created and read.'),
         note='trusted: admissible differences (List order, ties) from the reference evaluator'),
     'C11': dict(
@@ -86,11 +93,12 @@ CHECKS = {
         text=('Single-file generated programs (also with functor applications) are split into import trees with same-named private predicates, '
               'exported names that need aliases, shared base names, diamonds and several import roots; every main-file predicate is executed '
               'under both parsers and compared with the reference evaluator on the flattened program; rule sets of the two parsers are compared; '
-              'cycles, undefined / unused imports and redefinitions must be rejected with ParsingException.'),
+              'cycles, undefined / unused imports and redefinitions - six fixed templates and one mutation of every valid generated tree, in the main '
+              'file or in a module it reaches - must be rejected with ParsingException by both parsers.'),
         note='trusted: reference evaluator; flattening = the generator\'s own single-file program'),
     'C13': dict(
         category='exploration', design_ref='DESIGN.md 4/C13',
-        technique='runtime monitor: the same manifest compiled in fresh worker processes under different PYTHONHASHSEED values, different compilation orders (histories), repeated LogicaProgram construction from one rules object and the C++ parser; byte comparison of SQL, deep comparison of the caller-owned rules object',
+        technique='runtime monitor: the same manifest compiled in fresh worker processes under different PYTHONHASHSEED values, different compilation orders (histories), repeated LogicaProgram construction from one rules object and the C++ parser; byte comparison of SQL, deep comparison of the caller-owned rules object; informational module-state differ and audit hook in the workers',
         text=('Every entry of a manifest (generated programs with combines / functors / all recursion modes / imports, other-dialect variants, the '
               'integration test corpus, programs sensitive to the experimental-syntax switch) is compiled in separate interpreter processes under '
               '4 (quick) / 21 (thorough) hash seeds, in 3 different orders, 3 times from one parsed rules object and through the C++ parser; '
@@ -110,16 +118,17 @@ CHECKS = {
         note='trusted: the trace specification in vf/ref/sched_spec.py and vf/checks/c14_plans.py; scheduler-only configurations limited to the shapes the compiler emits; stop signals cannot be raised by compiled SQLite plans (copy_to_file is DuckDB-only), they are injected in the scheduler-only workload'),
     'C15': dict(
         category='exploration', design_ref='DESIGN.md 4/C15',
-        technique='runtime monitor: metamorphic parse of layout variants (noise only at token boundaries) under both parsers, failing variants minimised to the responsible noise item; invariant check on every heritage-aware string of every parsed tree',
+        technique='runtime monitor: metamorphic parse of layout variants (noise only at token boundaries) under both parsers, failing variants minimised to the responsible noise item; invariant check on every heritage-aware string of every parsed tree; string-content variants (contents of a double-quoted literal replaced by separators, brackets, comment markers, keywords, backslashes)',
         text=('Whitespace, newlines, # and /* */ comments (bodies full of separators and quotes) and a trailing semicolon are inserted at token '
               'boundaries of generated programs; the rule tree with span-carrying keys dropped must equal the base tree under both parsers; every '
               'span h must satisfy h.heritage[h.start:h.stop] == str(h) and point into a statement of the program. Failing variants are reduced '
-              '(ddmin) to the minimal noise and classified against the recorded mechanisms.'),
+              '(ddmin) to the minimal noise and classified against the recorded mechanisms. `#` comments are also glued to the token before them; the '
+              'contents of double-quoted literals are replaced by hostile contents and only that literal\'s value may change.'),
         note='trusted: token boundaries of the generators; removal of optional spaces is not part of the statement and is not judged'),
     'C19': dict(
         category='fault_enumeration', design_ref='DESIGN.md 4/C19',
         technique='runtime fault injection: a fixed catalogue of corruption operators applied to generated valid programs; the outcome of the real compile path is classified (diagnostic / SQL / internal error) and the diagnostic text is checked for the offending item',
-        text=('Each of 20 corruption operators is applied once to every generated valid program (whose affected predicate is first confirmed to '
+        text=('Each of 24 corruption operators is applied once to every generated valid program (whose affected predicate is first confirmed to '
               'compile); compilation of the affected predicate must raise one of the four diagnostic exception types that logica.py catches, the '
               'message or its context must name the offending variable / predicate, and no SQL may be produced.'),
         note='trusted: each operator makes the program certainly invalid (fresh names, predicates defined after the functor); @Ground of missing predicates and undefined body predicates are valid by design'),
@@ -135,25 +144,27 @@ CHECKS = {
 
 CHECKS['C20'] = dict(
     category='exploration', design_ref='DESIGN.md 4/C20',
-    technique='runtime monitor: exhaustive small-domain evaluation of built-ins through compiled programs on SQLite vs Python reference definitions; aggregate programs compiled once and executed over every multiset of rows in all insertion orders (row-arrival schedule)',
+    technique='runtime monitor: exhaustive small-domain evaluation of built-ins through compiled programs on SQLite vs Python reference definitions; aggregate programs compiled once and executed over every multiset of rows in all insertion orders (row-arrival schedule); icontract invariants at a hook on the ArgMin/ArgMax UDF objects at every step',
     text=('Every scalar built-in is evaluated on exhaustive small domains (50 calls per compiled program) and compared with a reference definition; '
           'predicate-level and expression-level aggregates are compiled once and run on a data table filled with every multiset of up to 4 (5) rows '
-          'in every insertion order: each order must match the definition (ties: any admissible answer) and all orders must agree.'),
+          'in every insertion order: each order must match the definition (ties: any admissible answer) and all orders must agree; after every '
+          'UDF step the bounded heap must keep at most K pairs, have the worst kept value at its root and hold the K best values fed so far.'),
     note='trusted: reference definitions in vf/ref/builtins.py and aggregates.py; SQLite integer division / C remainder; recorded C02 deviations modelled')
 
 CHECKS['C10'] = dict(
     category='exploration', design_ref='DESIGN.md 4/C10',
-    technique='runtime monitor: string round trip through the real pipeline on SQLite; dialect-specific lexers decode the emitted literal and compare statement token shapes for the 7 non-executable dialects; sys.monitoring loop watch bounds flag expansion logically',
+    technique='runtime monitor: string round trip through the real pipeline on SQLite; dialect-specific lexers decode the emitted literal and compare statement token shapes for the 7 non-executable dialects; sys.monitoring loop watch bounds flag expansion logically; generated flag graphs vs a model of the documented substitution',
     text=('Strings over an alphabet of every character special to Logica, Python formatting and the eight SQL dialects are placed as fact argument, '
           'list element, record field, ++ operands, flag default, user flag and argv flag; on SQLite the value must come back character for '
           'character; for the other dialects the emitted literal must decode (under that engine\'s lexical rules) to the original and keep the '
-          'token shape of a plain string; documented ${flag} expansion cases incl. recursive flags are checked with a logical bound on passes and text size.'),
+          'token shape of a plain string; documented ${flag} expansion: fixed cases incl. recursive flags plus generated acyclic flag graphs (chains, unused '
+          'flags, user values, every definition order of four flags) against a model of the substitution, with a logical bound on passes and text size.'),
     note='trusted: lexical rules in vf/mon/sqllex.py; ${...} expansion is documented textual parameterisation')
 
 CHECKS['C09'] = dict(
     category='exploration', design_ref='DESIGN.md 4/C09',
     technique='runtime monitor: generated programs compiled for all 8 dialects; outcome classification (SQL / diagnostic / internal error) and a dialect-aware lexer + scope checker over every emitted statement, calibrated against the real SQLite engine on every SQLite statement',
-    text=('Each generated program is compiled for sqlite, duckdb, psql, bigquery, trino, presto, clickhouse and databricks and several predicates; '
+    text=('Each generated program (half of them with @Ground / @With / @NoInject / @NoWith on intermediates) is compiled for sqlite, duckdb, psql, bigquery, trino, presto, clickhouse and databricks and several predicates; '
           'internal errors are violations; every emitted statement must lex under the engine\'s rules, have balanced brackets, bind every alias.column '
           'to an enclosing FROM alias, define allocated WITH tables before use and leak no placeholder. The checker must agree with SQLite on every '
           'SQLite statement (else the run is a harness error, not a finding).'),
@@ -163,7 +174,7 @@ CHECKS['C05'] = dict(
     category='exploration', design_ref='DESIGN.md 4/C05',
     technique='runtime monitor: generated ground-typed programs through the real type checker (signatures compared with the generator\'s types), run-time values checked against inferred column types, single-point type corruptions compiled under permutations of rules and conjuncts',
     text=('Programs whose column types are ground by construction must be accepted with exactly the generated signatures (sqlite with '
-          'type_checking, and psql / duckdb / clickhouse which check by default); values returned by SQLite must inhabit the inferred types; six '
+          'type_checking, and psql / duckdb / clickhouse which check by default); values returned by SQLite must inhabit the inferred types; nine '
           'kinds of single-point type corruption must be rejected with TypeErrorCaughtException under every tried order of the corrupted rule\'s '
           'conjuncts and of the rules.'),
     note='trusted: the generator\'s typing discipline; rendering via reference_algebra.RenderType')
